@@ -133,6 +133,11 @@ theorem alignGuardDrop_never_writes {cfg : Cfg} {s s' : State} {n : Nat}
     (h : alignGuardDrop cfg s n = .ok s') (a : Nat) : readByte s' a = readByte s a :=
   readByte_congr (alignGuardDrop_memOf h) a
 
+/-- the second half of `BumpAlignGuard::drop` (re-aligning the chunk the guard started in) writes no byte -/
+theorem alignChunkAt_never_writes {cfg : Cfg} {s s' : State} {n : Nat} {st : Cur}
+    (h : alignChunkAt cfg s n st = .ok s') (a : Nat) : readByte s' a = readByte s a :=
+  readByte_congr (alignChunkAt_memOf h) a
+
 /-- the chunk list stays well-formed across an allocation when the base allocator grants fresh memory -/
 theorem alloc_keeps_wf {cfg : Cfg} {s s' : State} {L : Layout} {r : Except AErr Nat}
     (hwf : MemWF s) (hfr : HeadFresh s) (h : alloc cfg s L = .ok (s', r)) : MemWF s' :=
